@@ -35,6 +35,25 @@ theorem walkList_single {cat : List String} {l : List PyAst} {x : W} (h : walkLi
       obtain ⟨_, _, _, _, h3⟩ := walkList_cons_ok hws
       simp at h3
 
+theorem unparseIn_of_undot {r : PyAst} {d : Dotted} (h : undot r = some d) (neg : Bool) (l : PyAst) :
+    unparseIn neg l r = (unparseV l).map (fun v => .cmp (if neg then .notcontains else .contains) d v) := by
+  cases r with
+  | name id =>
+    simp [undot] at h
+    subst h
+    cases hv : unparseV l <;> simp [unparseIn, undot, hv]
+  | «attribute» x attr =>
+    cases hv : unparseV l <;> simp [unparseIn, h, hv]
+  | boolOp _ _ => simp [undot] at h
+  | unaryOp _ _ => simp [undot] at h
+  | binOp _ _ _ => simp [undot] at h
+  | compare _ _ => simp [undot] at h
+  | call _ _ => simp [undot] at h
+  | constant _ => simp [undot] at h
+  | list _ => simp [undot] at h
+  | tuple _ => simp [undot] at h
+  | other _ _ => simp [undot] at h
+
 /-- plain comparison `idx <op> value` -/
 theorem plain_inv (cat : List String) (c : Cmp) (l r : PyAst) (wl wr w : W) (q : Q)
     (hl : walk cat l = .ok wl) (hr : walk cat r = .ok wr)
@@ -44,11 +63,12 @@ theorem plain_inv (cat : List String) (c : Cmp) (l r : PyAst) (wl wr w : W) (q :
   simp only [factoryCall, bind_ok, pure_ok, Except.ok.injEq] at hm
   obtain ⟨i, hi, rfl⟩ := hm
   obtain ⟨rfl, hcat⟩ := getIndex_ok hi
+  have hmem := List.contains_iff_mem.mp hcat
   simp only [unembed, Option.map_eq_some_iff] at hq
   obtain ⟨v, hv, rfl⟩ := hq
   obtain ⟨d, hd, hid⟩ := walk_astName_inv cat l i hl
   obtain ⟨sv, h1, h2⟩ := walk_value_inv cat r wr v hr hv
-  exact ⟨d, sv, hd, h1, by simp [Sx.tree, h2, hid], by simp [Sx.inCat, hid, hcat]⟩
+  exact ⟨d, sv, hd, h1, by simp [Sx.tree, h2, hid], by simp [Sx.inCat, hid, hmem]⟩
 
 /-- `value [not] in idx`, `idx [not] in any(v)`, `idx [not] in all(v)` -/
 theorem in_inv (cat : List String) (neg : Bool) (l r : PyAst) (wl wr w : W) (q : Q)
@@ -62,6 +82,7 @@ theorem in_inv (cat : List String) (neg : Bool) (l r : PyAst) (wl wr w : W) (q :
     simp only [hcall, if_true, bind_ok] at hm
     obtain ⟨i, hi, q', hq', hm⟩ := hm
     obtain ⟨rfl, hcat⟩ := getIndex_ok hi
+    have hmem := List.contains_iff_mem.mp hcat
     cases wr <;> simp [W.callable] at hcall
     next all vals =>
     simp only [callWithIndex, Except.ok.injEq] at hq'
@@ -86,9 +107,9 @@ theorem in_inv (cat : List String) (neg : Bool) (l r : PyAst) (wl wr w : W) (q :
       obtain ⟨sv, h1, h2⟩ := walk_value_inv cat arg vals v harg hv
       cases all
       · exact ⟨.cmp .any d sv, by simp [unparseIn, hd, h1], by simp [Sx.tree, h2, hid],
-          by simp [Sx.inCat, hid, hcat]⟩
+          by simp [Sx.inCat, hid, hmem]⟩
       · exact ⟨.cmp .all d sv, by simp [unparseIn, hd, h1], by simp [Sx.tree, h2, hid],
-          by simp [Sx.inCat, hid, hcat]⟩
+          by simp [Sx.inCat, hid, hmem]⟩
     · simp only [if_true, negateCmp, Except.ok.injEq] at hm
       subst hm
       simp only [unembed, Option.map_eq_some_iff] at hq
@@ -96,22 +117,21 @@ theorem in_inv (cat : List String) (neg : Bool) (l r : PyAst) (wl wr w : W) (q :
       obtain ⟨sv, h1, h2⟩ := walk_value_inv cat arg vals v harg hv
       cases all
       · exact ⟨.cmp .notany d sv, by simp [unparseIn, hd, h1], by simp [Sx.tree, h2, hid, Cmp.negate],
-          by simp [Sx.inCat, hid, hcat]⟩
+          by simp [Sx.inCat, hid, hmem]⟩
       · exact ⟨.cmp .notall d sv, by simp [unparseIn, hd, h1], by simp [Sx.tree, h2, hid, Cmp.negate],
-          by simp [Sx.inCat, hid, hcat]⟩
+          by simp [Sx.inCat, hid, hmem]⟩
   · -- containment
     simp only [hcall, Bool.false_eq_true, if_false, bind_ok, pure_ok, Except.ok.injEq] at hm
     obtain ⟨i, hi, rfl⟩ := hm
     obtain ⟨rfl, hcat⟩ := getIndex_ok hi
+    have hmem := List.contains_iff_mem.mp hcat
     simp only [unembed, Option.map_eq_some_iff] at hq
     obtain ⟨v, hv, rfl⟩ := hq
     obtain ⟨d, hd, hid⟩ := walk_astName_inv cat r i hr
     obtain ⟨sv, h1, h2⟩ := walk_value_inv cat l wl v hl hv
     refine ⟨.cmp (if neg then .notcontains else .contains) d sv, ?_, by simp [Sx.tree, h2, hid],
-      by simp [Sx.inCat, hid, hcat]⟩
-    cases r <;> simp [undot] at hd
-    · next id => simp [unparseIn, undot, hd, h1]
-    · next x attr => simp [unparseIn, undot, hd, h1]
+      by simp [Sx.inCat, hid, hmem]⟩
+    simp [unparseIn_of_undot hd, h1]
 
 theorem ltFlag_of_type {o : CmpOp} {f : Factory} (h : cmpOpW o = .ok f) (ht : f.type = .lt ∨ f.type = .le) :
     ltFlag o = some (decide (f.type = .lt)) := by
@@ -160,6 +180,7 @@ theorem compare_inv (cat : List String) (l : PyAst) (rest : List (CmpOp × PyAst
     simp only at hm
     obtain ⟨idx, hidx, ht1, ht2, rfl⟩ := rangeCall_ok hm
     obtain ⟨rfl, hcat⟩ := getIndex_ok hidx
+    have hmem := List.contains_iff_mem.mp hcat
     simp only [unembed] at hq
     cases hs : unembedV wl.wrap with
     | none => simp [hs] at hq
@@ -175,7 +196,7 @@ theorem compare_inv (cat : List String) (l : PyAst) (rest : List (CmpOp × PyAst
         refine ⟨.range d ss se (decide (f1.type = .lt)) (decide (f2.type = .lt)), ?_, ?_, ?_⟩
         · simp [unparse, ltFlag_of_type hf1 ht1, ltFlag_of_type hf2 ht2, a1, hd, b1]
         · simp [Sx.tree, a2, b2, hid]
-        · simp [Sx.inCat, hid, hcat]
+        · simp [Sx.inCat, hid, hmem]
   | (o1, a1) :: (o2, a2) :: (o3, a3) :: tl =>
     simp only [List.map_cons, cmpOps, bind_ok, pure_ok, Except.ok.injEq] at hfs
     obtain ⟨f1, _, _, ⟨f2, _, _, ⟨f3, _, fs', _, rfl⟩, rfl⟩, rfl⟩ := hfs
@@ -409,13 +430,6 @@ theorem toAsts_of_unparseL : ∀ (l : List PyAst) (ss : List Sx), unparseL l = s
         simp [Sx.toAsts, toAst_of_unparse a s h1, toAsts_of_unparseL as ss' h2]
 end
 
-theorem undot_not_call {r : PyAst} {d : Dotted} (h : undot r = some d) :
-    ∀ neg l, unparseIn neg l r = (match undot r, unparseV l with
-      | some idx, some v => some (.cmp (if neg then .notcontains else .contains) idx v)
-      | _, _ => none) := by
-  intro neg l
-  cases r <;> simp [undot] at h <;> simp [unparseIn]
-
 theorem unparse_cmpAst (c : Cmp) (idx : Dotted) (v : SV) :
     unparse (cmpAst c idx.toAst v.toAst) = some (.cmp c idx v) := by
   have hd := undot_toAst idx
@@ -427,8 +441,8 @@ theorem unparse_cmpAst (c : Cmp) (idx : Dotted) (v : SV) :
   case ge => simp [cmpAst, unparse, plainCmp, hd, hv]
   case lt => simp [cmpAst, unparse, plainCmp, hd, hv]
   case le => simp [cmpAst, unparse, plainCmp, hd, hv]
-  case contains => simp [cmpAst, unparse, undot_not_call hd, hd, hv]
-  case notcontains => simp [cmpAst, unparse, undot_not_call hd, hd, hv]
+  case contains => simp [cmpAst, unparse, unparseIn_of_undot hd, hv]
+  case notcontains => simp [cmpAst, unparse, unparseIn_of_undot hd, hv]
   case any => simp [cmpAst, unparse, callAst, unparseIn, hd, hv]
   case notany => simp [cmpAst, unparse, callAst, unparseIn, hd, hv]
   case all => simp [cmpAst, unparse, callAst, unparseIn, hd, hv]
